@@ -57,7 +57,11 @@ type Seg struct {
 	T     *smt.Term // String-sorted variable/term
 	Itoa  *smt.Term // BV64: decimal rendering of a signed integer
 	ItoaV BV        // the same word with its integer twin, if any
+	B64   []BV      // non-nil: base64 text of these bytes (at least one of them symbolic) in encoding Enc
+	Enc   string    // "std", "raw", "url", "rawurl"
 }
+
+func (g Seg) isLit() bool { return g.T == nil && g.Itoa == nil && g.B64 == nil }
 
 type Str struct {
 	S    string
@@ -191,11 +195,11 @@ func normSegs(segs []Seg) Str {
 	var out []Seg
 	sym := false
 	for _, g := range segs {
-		if g.T == nil && g.Itoa == nil {
+		if g.isLit() {
 			if g.Lit == "" {
 				continue
 			}
-			if n := len(out); n > 0 && out[n-1].T == nil && out[n-1].Itoa == nil {
+			if n := len(out); n > 0 && out[n-1].isLit() {
 				out[n-1].Lit += g.Lit
 				continue
 			}
@@ -231,6 +235,8 @@ func (s Str) String() string {
 			sb.WriteString("<" + g.T.Name + ">")
 		case g.Itoa != nil:
 			sb.WriteString("<itoa>")
+		case g.B64 != nil:
+			sb.WriteString("<base64:" + g.Enc + ">")
 		default:
 			sb.WriteString(g.Lit)
 		}
